@@ -26,7 +26,7 @@ from . import rewrite
 from .source import ExtractError, mask, match_close, norm
 
 DIRECTIVE = re.compile(r'^\s*//@(\w+!?)\s*(.*)$')
-RAW_KINDS = ('spec', 'loop', 'before', 'after', 'sig', 'prefix', 'closure', 'tail', 'loopstart', 'loopend', 'head', 'at')
+RAW_KINDS = ('spec', 'loop', 'before', 'after', 'sig', 'prefix', 'closure', 'tail', 'loopstart', 'loopend', 'head', 'at', 'stmt')
 
 
 class ItemSpec:
@@ -321,6 +321,16 @@ def build_item(src, spec, idx, log):
                     break
                 j += 1
             inserts.append((j, [''] + lines, okey))
+        elif kind == 'stmt':
+            # before the statement whose (first) line contains the anchor
+            a = _find_anchor(text, m, arg, what)
+            ls = text.rfind('\n', 0, a) + 1
+            k = ls - 1
+            while k >= 0 and m[k].isspace():
+                k -= 1
+            if k >= 0 and m[k] not in ';{}':
+                raise ExtractError('//@stmt: anchor %s is not on the first line of a statement in %s' % (arg, what))
+            inserts.append((ls, lines, okey))
         elif kind == 'at':
             a = _find_anchor(text, m, arg, what)
             mo_a = re.match(r'"((?:[^"\\]|\\.)*)"', arg)
